@@ -64,6 +64,8 @@ def gen_consts():
                     os.path.join(COQ, "gen", "SyncCellProg.v")])
     if rc2 != 0:
         raise BrokenTie("translator gen_synccell.py refused the current source (util/sync_cell.rs, time/monotonic_time.rs)", out2)
+    # T3 never fails: on an untranslatable source it writes a PoolProg.v that breaks the obligations of C04/C06 only
+    sh([sys.executable, os.path.join(VERIF, "tools", "gen_pool.py"), os.path.join(COQ, "gen", "PoolProg.v")])
     return out
 
 
